@@ -133,5 +133,9 @@ def run(ctx):
                 sig.update({"mode": e["mode"], "path": "cu" if "cu" in str(m["space"]) else "general"})
             ctx.violation(sig, "%s rejected by C11Trace clauses %s; event %s" % (m, rej[j], {k: v for k, v in e.items() if k != "id"}), {"event": e, "meta": m})
     ctx.extra["spaces"] = len(keep)
+    # "the grid-level step uses, for each (r,z,theta) line, the parallel gradient of the potential at that same global position":
+    # gridStep / gridStepKeepGradient against `step` applied by hand to every local line with its own gradient entry and radius
+    from harness import gridops
+    ctx.extra["grid_level_blocks_compared"] = gridops.check_grid_level(ctx, rng, "vpar")
     ctx.sample({"meta": meta[3], "event": events[3]})
     ctx.sample({"meta": meta[-1], "event": events[-1]})
